@@ -61,6 +61,24 @@
 /*
     TIME FUNCTIONS
  */
+/*
+    The difference of two times in milliseconds does not fit an int32 after
+    24.8 days.  Saturate instead of wrapping around, so that a long interval
+    is never mistaken for a short (or negative) one by lifetime checks.
+ */
+static int32 psClampMsecs(int64_t msecs)
+{
+    if (msecs > 0x7FFFFFFF)
+    {
+        return 0x7FFFFFFF;
+    }
+    if (msecs < -0x7FFFFFFF)
+    {
+        return -0x7FFFFFFF;
+    }
+    return (int32) msecs;
+}
+
 # ifndef USE_HIGHRES_TIME
 /******************************************************************************/
 /*
@@ -118,10 +136,9 @@ int32 psDiffMsecs(psTime_t then, psTime_t now, void *userPtr)
         /* borrow 1 second worth of usec */
         now.psTimeInternal.tv_usec += 1000000;
     }
-    return (int32) ((now.psTimeInternal.tv_sec - then.psTimeInternal.tv_sec)
-            * 1000) +
-           ((now.psTimeInternal.tv_usec - then.psTimeInternal.tv_usec) /
-            1000);
+    return psClampMsecs(((int64_t) now.psTimeInternal.tv_sec -
+                         (int64_t) then.psTimeInternal.tv_sec) * 1000 +
+        ((now.psTimeInternal.tv_usec - then.psTimeInternal.tv_usec) / 1000));
 }
 
 int32 psCompareTime(psTime_t a, psTime_t b, void *userPtr)
@@ -223,12 +240,10 @@ int32 psDiffMsecs(psTime_t then, psTime_t now, void *userPtr)
         /* borrow 1 second worth of nsec */
         now.psTimeInternal.tv_nsec += 1000000000L;
         }
-        return (int32) ((now.psTimeInternal.tv_sec -
-                then.psTimeInternal.tv_sec) *
-                1000) +
-               ((now.psTimeInternal.tv_nsec -
-                 then.psTimeInternal.tv_nsec) /
-                1000000);
+        return psClampMsecs(((int64_t) now.psTimeInternal.tv_sec -
+                             (int64_t) then.psTimeInternal.tv_sec) * 1000 +
+            ((now.psTimeInternal.tv_nsec - then.psTimeInternal.tv_nsec) /
+             1000000));
     }
 
     int64_t psDiffUsecs(psTime_t then, psTime_t now)
